@@ -33,6 +33,10 @@ func checkC11(c *Ctx) {
 	prog := c.Prog(load.AMD64)
 	// "for a signature produced by Sign the emitted id recovers the signer": the id formula of sign (rule C08-1)
 	c08Sign(c, prog)
+	// "ids outside [0,3] are errors", "no other id does": the recoverable encoding hands the id byte on unchanged (rule
+	// C12-2) and Verify compares the recovered key with the verifier's (rule C07-3)
+	c12Compact(c, prog)
+	c07Options(c, prog)
 	name := models.SececPkg + ".RecoverPublicKey"
 	r := RunFn(prog, protoSet(nil), name, &RunOpts{Args: named("h", "r", "s", "id")})
 	if r.Fn == nil {
